@@ -115,7 +115,7 @@ static var fn_ret(int64_t v) {
   return mapobj[mapi];
 }
 static int64_t ival(var x) {
-  if (type_of(x) is Tuple) { return c_int(get(x, $I(0))); }   /* zipped / enumerated items */
+  while (type_of(x) is Tuple) { x = get(x, $I(0)); }   /* zipped / enumerated items: first component */
   return c_int(x);
 }
 static var f_even(var x) { return ival(x) % 2 is 0 ? x : NULL; }
@@ -206,10 +206,15 @@ static FILE* vf_pending = NULL;
 
 static void repr(var v, int depth);
 
+static size_t walk_bound = 0;     /* set by fwd/bwd ops when the caller supplies a bound */
+
 static void repr_iter(var c, bool pairs, int depth) {
   size_t bound = 4, n = 0;
-  struct Len* l = instance(c, Len);
-  if (l and l->len) { bound = 2 * len(c) + 4; } else { bound = 100000; }
+  if (walk_bound and depth is 0) { bound = walk_bound; }
+  else {
+    struct Len* l = instance(c, Len);
+    if (l and l->len and type_of(c) isnt Zip and type_of(c) isnt Map and type_of(c) isnt Slice) { bound = 2 * len(c) + 4; } else { bound = 100000; }
+  }
   bool first = true;
   for (var it = iter_init(c); it isnt Terminal; it = iter_next(c, it)) {
     if (n++ >= bound) { fprintf(o, "%sOVERRUN", first ? "" : ","); return; }
@@ -554,16 +559,54 @@ static void do_op(char** w, int n) {
   else if (OP("deref")) { var r = deref(arg(w[1])); if (n > 2) { S[slotno(w[2])] = r; } repr(r, 0); }
   else if (OP("ref")) { ref(arg(w[1]), arg(w[2])); }
   else if (OP("eqptr")) { fprintf(o, "%d", (int)(arg(w[1]) is arg(w[2]))); }
+  else if (OP("stk")) {                   /* stk d kind args... : the stack-macro forms range()/slice()/zip()/enumerate()/filter()/map() */
+    int d = slotno(w[1]); const char* k = w[2]; var r = NULL;
+    struct Int zero = { 0 };
+    if (strcmp(k, "range") is 0) {
+      struct Range rv = { mk_stack(Int, &zero, sizeof zero), 0, 0, 0 };
+      r = range_stack(mk_stack(Range, &rv, sizeof rv), arg_tuple(w + 3, n - 3));
+    } else if (strcmp(k, "slice") is 0) {
+      struct Range rv = { mk_stack(Int, &zero, sizeof zero), 0, 0, 0 };
+      struct Slice sv = { NULL, mk_stack(Range, &rv, sizeof rv) };
+      r = slice_stack(mk_stack(Slice, &sv, sizeof sv), arg_tuple(w + 3, n - 3));
+    } else if (strcmp(k, "zip") is 0 or strcmp(k, "enum") is 0) {
+      var iters;
+      if (k[0] is 'e') {
+        struct Range rv = { mk_stack(Int, &zero, sizeof zero), 0, 0, 0 };
+        var rg = range_stack(mk_stack(Range, &rv, sizeof rv), arg_tuple(w + 3, 0));
+        var* it = keep(calloc(3, sizeof(var))); it[0] = rg; it[1] = arg(w[3]); it[2] = Terminal;
+        struct Tuple tv = { it }; iters = mk_stack(Tuple, &tv, sizeof tv);
+      } else { iters = arg_tuple(w + 3, n - 3); }
+      size_t ni = len(iters);
+      var* vals = keep(calloc(ni + 1, sizeof(var)));
+      struct Tuple vv = { vals };
+      struct Zip zv = { iters, mk_stack(Tuple, &vv, sizeof vv) };
+      r = zip_stack(mk_stack(Zip, &zv, sizeof zv));
+      if (k[0] is 'e') { r = enumerate_stack(r); }
+    } else if (strcmp(k, "filter") is 0) {
+      struct Filter fv = { arg(w[3]), arg(w[4]) }; r = mk_stack(Filter, &fv, sizeof fv);
+    } else if (strcmp(k, "map") is 0) {
+      struct Map mv = { arg(w[3]), NULL, arg(w[4]) }; r = mk_stack(Map, &mv, sizeof mv);
+    } else { harness_bug("stk kind"); }
+    S[d] = r; fputs("stk", o);
+  }
+  else if (OP("getsp")) {                 /* get(i) for i in [0, len) */
+    var c = arg(w[1]); int64_t l = (int64_t)len(c);
+    for (int64_t i = 0; i < l; i++) { if (i > 0) { fputc(',', o); } repr(get(c, $I(i)), 1); }
+  }
   else if (OP("gets")) {                  /* get(i) for i in [-len, len) */
     var c = arg(w[1]); int64_t l = (int64_t)len(c);
     for (int64_t i = -l; i < l; i++) { if (i > -l) { fputc(',', o); } repr(get(c, $I(i)), 0); }
   }
-  else if (OP("fwd")) { fputc('[', o); repr_iter(arg(w[1]), false, 0); fputc(']', o); }
+  else if (OP("fwd")) { walk_bound = n > 2 ? (size_t)atol(w[2]) : 0; fputc('[', o); repr_iter(arg(w[1]), false, 0); fputc(']', o); walk_bound = 0; }
   else if (OP("fwdkv")) { fputc('{', o); repr_iter(arg(w[1]), true, 0); fputc('}', o); }
   else if (OP("bwd")) {
     var c = arg(w[1]); size_t bound = 100000, k = 0; bool first = true;
-    struct Len* l = instance(c, Len);
-    if (l and l->len) { bound = 2 * len(c) + 4; }
+    if (n > 2) { bound = (size_t)atol(w[2]); }
+    else {
+      struct Len* l = instance(c, Len);
+      if (l and l->len and type_of(c) isnt Zip and type_of(c) isnt Map and type_of(c) isnt Slice) { bound = 2 * len(c) + 4; }
+    }
     fputc('[', o);
     for (var it = iter_last(c); it isnt Terminal; it = iter_prev(c, it)) {
       if (k++ >= bound) { fprintf(o, "%sOVERRUN", first ? "" : ","); break; }
@@ -632,6 +675,10 @@ int main(int argc, char** argv) {
     if (strcmp(line, "end") is 0) {
       /* case over: drop everything; whatever was not deleted is garbage for the collector */
       memset(slots, 0, sizeof slots);
+#if defined(CELLO_VERIF) && !defined(CELLO_NGC)
+      /* sweep this case's garbage now, while nothing refers to it, so that cases stay independent */
+      { extern void Cello_Verif_GC_Collect(var); Cello_Verif_GC_Collect(current(GC)); }
+#endif
       arena_free();
       epoch_token = next_token; live_count = 0; inv_msg[0] = 0; probe_mode = 0;
       printf("done\n"); fflush(stdout);
